@@ -285,6 +285,44 @@ fn one(rng: &mut Rng) {
     }
 }
 
+/// "farthest projected vertex" asked of the CURVE (`Curve2::max_point_in_direction`, `max_dist_in_direction`), on open
+/// outlines, exactly closed ones and outlines closed only to within the curve tolerance (the last vertex is then a
+/// vertex of its own, up to one tolerance away from the first): the answer is the exhaustive maximum over the stored
+/// vertices, with the index of the vertex that attains it.
+fn farthest_on_curve(rng: &mut Rng) {
+    let m = rng.int(3, 14) as usize;
+    let (rx, ry) = (rng.range(1.0, 6.0), rng.range(1.0, 6.0));
+    let a0 = rng.range(0.0, 2.0 * PI);
+    let mut pts: Vec<Point2> = (0..m).map(|k| { let a = a0 + 2.0 * PI * k as f64 / m as f64; Point2::new(rx * a.cos() * rng.range(0.7, 1.0), ry * a.sin() * rng.range(0.7, 1.0)) }).collect();
+    let tol = *rng.pick(&[1e-6, 1e-3, 1e-2]);
+    let seam_dir = Vector2::new(rng.gauss(), rng.gauss() + 1e-3).normalize();
+    match rng.below(3) {
+        0 => {}
+        1 => pts.push(pts[0]),
+        _ => pts.push(pts[0] + seam_dir * (tol * rng.range(0.3, 0.9))),
+    }
+    let Ok(c) = Curve2::from_points(&pts, tol, false) else { return };
+    let v_ = c.points().to_vec();
+    let mut v = Verdict::new();
+    for k in 0..4 {
+        // towards the seam (where a nearly closed outline has two vertices a fraction of the tolerance apart), or anywhere
+        let dir = if k == 0 { seam_dir * rng.range(0.2, 3.0) } else if k == 1 { (v_[0].coords.normalize() + seam_dir * 0.05) * rng.range(0.2, 3.0) } else { Vector2::new(rng.gauss(), rng.gauss() + 1e-3) };
+        let best = v_.iter().map(|p| dir.dot(&p.coords)).fold(f64::MIN, f64::max);
+        match c.max_point_in_direction(&dir) {
+            None => v.require(false, "farthest.curve_has_a_farthest_vertex", || "".into()),
+            Some((idx, p)) => {
+                v.require(idx < v_.len() && v_[idx] == p, "farthest.index_names_the_returned_vertex", || format!("{idx} {p:?}"));
+                v.require(dir.dot(&p.coords) >= best - 1e-12 * (1.0 + best.abs()) * dir.norm(), "farthest.curve_vertex_is_max_projection", || format!("closed={} tol={tol}: vertex {idx} projects to {}, the exhaustive maximum is {best}", c.is_closed(), dir.dot(&p.coords)));
+            }
+        }
+        let sp = SurfacePoint2::new(Point2::new(rng.range(-3.0, 3.0), rng.range(-3.0, 3.0)), UnitVec2::new_normalize(dir));
+        let want = v_.iter().map(|p| sp.scalar_projection(p)).fold(f64::MIN, f64::max);
+        let got = c.max_dist_in_direction(&sp);
+        v.require((got - want).abs() <= 1e-12 * (1.0 + want.abs()), "farthest.curve_distance_is_max_projection", || format!("closed={} tol={tol}: {got} vs {want}", c.is_closed()));
+    }
+    emit_oracle_only("ray.farthest_on_curve", &Tok::new(), &Tok::new(), &v);
+}
+
 fn params_and_slabs(rng: &mut Rng) {
     // intersection_param
     for _ in 0..4 {
@@ -437,6 +475,7 @@ pub fn run(rng: &mut Rng, n: usize) {
     for _ in 0..n {
         case("ray.intersections", "c06.library_call_panics", || one(rng));
         case("ray.intersections", "c06.library_call_panics", || params_and_slabs(rng));
+        case("ray.intersections", "c06.library_call_panics", || farthest_on_curve(rng));
         case("ray.intersections", "c06.library_call_panics", || grid_vertex_lines(rng));
         case("ray.intersections", "c06.library_call_panics", || grid_vertex_lines(rng));
     }
